@@ -10,6 +10,7 @@ import (
 	"sync"
 
 	"github.com/pinealctx/neptune/store/gormx"
+	"verifharness/vh"
 	"gorm.io/driver/mysql"
 	"gorm.io/gorm"
 	"gorm.io/gorm/logger"
@@ -140,7 +141,7 @@ func c18CoqEvents(ev []string) string {
 			out = append(out, "EExec 999")
 		}
 	}
-	return coqList(out)
+	return vh.CoqList(out)
 }
 func c18CoqResult(r string) string {
 	var i int
@@ -161,8 +162,9 @@ func c18CoqResult(r string) string {
 	return "(RStepErr 999)"
 }
 
-func init() {
-	register("c18", "gormx.Transact: every outcome vector for 0..4 steps x begin/commit/rollback", func(e *Env) {
+// gormx.Transact: every outcome vector for 0..4 steps x begin/commit/rollback
+func main() {
+	vh.Main("c18", func(e *vh.Env) {
 		maxSteps := 4
 		if e.Thorough || e.Search {
 			maxSteps = 5
@@ -184,8 +186,8 @@ func init() {
 					}
 				}
 				coq := fmt.Sprintf("({| begin_ok := %s; commit_ok := %s; rollback_ok := %s; steps := %s |}, (%s, %s))",
-					coqBool(b), coqBool(c), coqBool(r), coqList(ss), c18CoqEvents(ev), c18CoqResult(res))
-				e.Emit(Case{Coq: coq, Class: fmt.Sprintf("steps=%d", len(steps)), Nontrivial: len(steps) > 0,
+					vh.CoqBool(b), vh.CoqBool(c), vh.CoqBool(r), vh.CoqList(ss), c18CoqEvents(ev), c18CoqResult(res))
+				e.Emit(vh.Case{Coq: coq, Class: fmt.Sprintf("steps=%d", len(steps)), Nontrivial: len(steps) > 0,
 					Desc: map[string]interface{}{"begin_ok": b, "commit_ok": c, "rollback_ok": r, "steps": steps, "events": ev, "result": res}})
 			}
 		}
